@@ -599,6 +599,11 @@ func (res *Response) flush(conn io.Writer) error {
 		}
 		pdata = mempool.AppendString(pdata, "0\r\n")
 		for k, v := range res.trailer {
+			// a trailer is declared before the body and usually gets
+			// its value after it: take the value the header has now.
+			if hv := res.header.Get(k); hv != "" {
+				v = hv
+			}
 			pdata = mempool.AppendString(pdata, k)
 			pdata = mempool.AppendString(pdata, ": ")
 			pdata = mempool.AppendString(pdata, v)
